@@ -31,6 +31,11 @@ def expectedPlayerUpdate : List String := ["gs := table.State.GameState", "pr.ta
 
 theorem C19_update_facts : Facts.playerUpdate = expectedPlayerUpdate := by rfl
 
+/-- the player's own fold brings him back — the runner's status is `running` again — whether or not the table accepts the
+fold (regenerated from actor/player_runner.go): a suspended player who presses Fold too late is still back, and the runner
+waits his thinking time out at the next request -/
+theorem C19_fold_resumes_fact : Facts.playerFold = ["pr.Resume()", "return pr.actions.Fold()"] := by decide
+
 /-- the payments of `automate`, as the source has them now: the sizes posted for the running hand (`gs.Meta`), by
 request and position, and nothing else -/
 theorem C19_payment_facts :
